@@ -30,8 +30,8 @@ impl<V> FlexChild<V> {
 
     pub fn flex(self, flex: f64) -> Self {
         Self {
-            // only positive factors make a flex child (same rule as `Flex::push_child_ext`)
-            flex: (flex > 0.0).then_some(flex),
+            // only positive finite factors make a flex child (same rule as `Flex::push_child_ext`)
+            flex: (flex.is_finite() && flex > 0.0).then_some(flex),
             ..self
         }
     }
@@ -220,7 +220,7 @@ impl<'a> Flex<'a> {
     ) {
         self.children.push(FlexChild {
             view: child.into_view().boxed(),
-            flex: flex.and_then(|flex| (flex > 0.0).then_some(flex)),
+            flex: flex.and_then(|flex| (flex.is_finite() && flex > 0.0).then_some(flex)),
             face,
             align,
         });
@@ -280,7 +280,7 @@ impl<'a> Flex<'a> {
                             .get("flex")
                             .map(f64::deserialize)
                             .transpose()?
-                            .and_then(|flex| (flex > 0.0).then_some(flex));
+                            .and_then(|flex| (flex.is_finite() && flex > 0.0).then_some(flex));
                         let align = value
                             .get("align")
                             .map(Align::deserialize)
@@ -360,7 +360,7 @@ pub fn flex_layout(
     mut layout: ViewMutLayout<'_>,
 ) -> Result<(), Error> {
     let mut flex_total = 0.0;
-    let mut major_non_flex = 0;
+    let mut major_non_flex = 0usize;
     let mut minor = direction.minor(ct.min());
     let ct_loosen = ct.loosen();
 
@@ -370,7 +370,7 @@ pub fn flex_layout(
         match child.flex {
             None => {
                 child.view.layout(ctx, ct_loosen, child_layout.view_mut())?;
-                major_non_flex += direction.major(child_layout.size());
+                major_non_flex = major_non_flex.saturating_add(direction.major(child_layout.size()));
                 minor = max(minor, direction.minor(child_layout.size()));
             }
             Some(flex) => flex_total += flex,
@@ -379,14 +379,17 @@ pub fn flex_layout(
 
     // layout flex
     let mut major_remain = direction.major(ct.max()).saturating_sub(major_non_flex);
-    let mut major_flex = 0;
+    let mut major_flex = 0usize;
     if major_remain > 0 && flex_total > 0.0 {
         let mut child_layout_opt = layout.child_mut();
         for child in children.iter() {
             let mut child_layout = child_layout_opt.expect("not all flex children are allocated");
             if let Some(flex) = child.flex {
                 // compute available flex
-                let child_major_max = ((major_remain as f64) * flex / flex_total).round() as usize;
+                // share is never bigger than the space that is left: rounding errors in
+                // `flex_total` (up to division by zero) must not leak into the constraint
+                let child_major_max = (((major_remain as f64) * flex / flex_total).round() as usize)
+                    .min(major_remain);
                 flex_total -= flex;
                 if child_major_max != 0 {
                     // layout child
@@ -398,7 +401,7 @@ pub fn flex_layout(
                     // update counters
                     // child can take more than its share (it is not obliged to honour constraints)
                     major_remain = major_remain.saturating_sub(child_major);
-                    major_flex += child_major;
+                    major_flex = major_flex.saturating_add(child_major);
                     minor = max(minor, child_minor);
                 }
             }
@@ -409,7 +412,7 @@ pub fn flex_layout(
     // unused space to be filled
     let unused = direction
         .major(ct.max())
-        .saturating_sub(major_non_flex + major_flex);
+        .saturating_sub(major_non_flex.saturating_add(major_flex));
     let (space_side, space_between) = if unused > 0 {
         match justify {
             Justify::Start => (0, 0),
@@ -449,8 +452,9 @@ pub fn flex_layout(
                 child.align.align(direction.minor(child_size), minor),
             ));
 
-            major_offset += child_size.major(direction);
-            major_offset += space_between;
+            major_offset = major_offset
+                .saturating_add(child_size.major(direction))
+                .saturating_add(space_between);
 
             child_layout_opt = child_layout.sibling();
         }
@@ -479,12 +483,12 @@ pub fn flex_render(
             let mut surf = match direction {
                 Axis::Horizontal => {
                     let start = child_layout.position().col;
-                    let end = start + child_layout.size().width;
+                    let end = start.saturating_add(child_layout.size().width);
                     surf.view_mut(.., start..end)
                 }
                 Axis::Vertical => {
                     let start = child_layout.position().row;
-                    let end = start + child_layout.size().height;
+                    let end = start.saturating_add(child_layout.size().height);
                     surf.view_mut(start..end, ..)
                 }
             };
